@@ -321,9 +321,10 @@ class Coll(V):
     parts: list = field(default_factory=list)
     removals: list = field(default_factory=list)  # (guard, text, fi, node): elements were removed - not modelled
     label: str = ""
+    keyed: bool = False  # a dict used as an ordered set (dict.fromkeys): item stores add the key
 
     def snapshot(self) -> "Coll":
-        return Coll(list(self.parts), list(self.removals), self.label)
+        return Coll(list(self.parts), list(self.removals), self.label, self.keyed)
 
 
 def root_elem(v: V) -> "Elem | None":
@@ -1149,7 +1150,7 @@ class Interp:
         elif isinstance(target, ast.Subscript):
             recv = self.ev(fr, target.value)
             if isinstance(recv, Coll):
-                self.coll_add(fr, recv, v, stmt)
+                self.coll_add(fr, recv, self.ev(fr, target.slice) if recv.keyed else v, stmt)
             elif isinstance(recv, DictV):
                 recv.taint |= self.value_taint(v) | self.value_taint(self.ev(fr, target.slice))
 
@@ -1831,9 +1832,9 @@ class Interp:
             a = args[0]
             if isinstance(a, Unknown) and a.patterns:
                 return Unknown(f"{name}({a.text})", a.taint, False, patterns=True)
-            if isinstance(a, (Coll, TupleV, NoneV)) or isinstance(a, Unknown):
-                return self.copy_of(a)
-            return self.copy_of(a)
+            c = self.copy_of(a)
+            c.keyed = name.endswith("fromkeys")
+            return c
         if name in ("itertools.chain", "chain"):
             out = Coll()
             for a in args:
@@ -1913,7 +1914,7 @@ class Interp:
                 return BoolV(self.free(f"STR[{key(recv)}].{attr}({','.join(key(a) for a in args)})", self._taints(args, kwargs)))
             return Unknown(f"{key(recv)}.{attr}({','.join(key(a) for a in args)})", self._taints(args, kwargs), False if attr in self.STR_PRESERVING else None)
         # ---- collections
-        if isinstance(recv, Coll) or (isinstance(recv, Unknown) and (hasattr(recv, "_coll") or "PARSED" in recv.taint) and attr in ("append", "add", "extend", "update", "copy", "union", "difference", "intersection", "insert", "remove", "discard", "clear", "pop", "popleft", "appendleft", "extendleft", "difference_update", "intersection_update", "sort", "reverse", "items", "keys", "values", "issubset", "issuperset", "isdisjoint", "count", "index", "__contains__")):
+        if isinstance(recv, Coll) or (isinstance(recv, Unknown) and (hasattr(recv, "_coll") or "PARSED" in recv.taint) and attr in ("append", "add", "extend", "update", "copy", "union", "difference", "intersection", "insert", "remove", "discard", "clear", "pop", "popleft", "appendleft", "extendleft", "setdefault", "difference_update", "intersection_update", "sort", "reverse", "items", "keys", "values", "issubset", "issuperset", "isdisjoint", "count", "index", "__contains__")):
             return self.coll_method(fr, self.as_coll(recv), attr, args, kwargs, e)
         # ---- vocabulary objects
         if isinstance(recv, Opaque):
@@ -1959,6 +1960,9 @@ class Interp:
         if attr in ("append", "add", "appendleft") and args:
             self.coll_add(fr, c, args[0], e)
             return NoneV()
+        if attr == "setdefault" and args and c.keyed:
+            self.coll_add(fr, c, args[0], e)
+            return Unknown(f"{key(c)}.setdefault(..)")
         if attr == "insert" and len(args) == 2:
             self.coll_add(fr, c, args[1], e)
             return NoneV()
